@@ -14,7 +14,15 @@ import (
 )
 
 var debugPanics = false
-var verifDir = "/verif"
+var verifDir = verifDirFromEnv()
+
+// VERIF_DIR lets the corpus runners work on a snapshot of /verif while the tree is being edited.
+func verifDirFromEnv() string {
+	if v := os.Getenv("VERIF_DIR"); v != "" {
+		return v
+	}
+	return "/verif"
+}
 
 type PropConfig struct {
 	Functions []string `json:"functions"`
